@@ -1470,6 +1470,99 @@ def _eval_atom(a, env, cache, ctx):
     return r
 
 
+class IvUnknown(Exception):
+    """interval evaluation cannot proceed on this box (a singularity or a branch lies inside it)"""
+
+
+def evaliv(f, box, cache=None):
+    """interval enclosure of term f over the box {var atom id: mpmath.iv interval}; sound outward-rounded arithmetic
+    (mpmath.iv); raises IvUnknown where a pole, a negative radicand, a non-positive log argument or an undetermined
+    indicator lies inside the box"""
+    from mpmath import iv
+    if not isinstance(f, RF):
+        return iv.mpf(f)
+    if cache is None:
+        cache = {}
+    tot = iv.mpf(0)
+    for m, c in f.p.items():
+        v = iv.mpf(c.numerator) / iv.mpf(c.denominator)
+        for a, e in m:
+            av = _iv_atom(a, box, cache)
+            if e < 0:
+                if av.a <= 0 <= av.b:
+                    raise IvUnknown("division by an interval containing 0")
+                v = v * (1 / av) ** (-e)
+            else:
+                v = v * av ** e
+        tot = tot + v
+    return tot
+
+
+def _iv_atom(a, box, cache):
+    from mpmath import iv
+    if a in cache:
+        return cache[a]
+    k = A.kind[a]
+    info = A.info[a]
+    if k == 'var':
+        if A.names[a] == "pi":
+            r = iv.pi
+        else:
+            r = box[a]
+    elif k == 'rad':
+        v = evaliv(RF(info[1]), box, cache)
+        if info[0] % 2 == 0:
+            if v.a < 0:
+                raise IvUnknown("radicand may be negative")
+            r = iv.sqrt(v) if info[0] == 2 else iv.exp(iv.log(v) / info[0]) if v.a > 0 else _iv_root0(v, info[0])
+        else:
+            if v.a > 0:
+                r = iv.exp(iv.log(v) / info[0])
+            elif v.b < 0:
+                r = -iv.exp(iv.log(-v) / info[0])
+            else:
+                raise IvUnknown("odd root across 0")
+    elif k == 'cos':
+        r = iv.cos(evaliv(info, box, cache))
+    elif k == 'sin':
+        r = iv.sin(evaliv(A.info[info], box, cache))
+    elif k == 'exp':
+        r = iv.exp(evaliv(info, box, cache))
+    elif k == 'log':
+        v = evaliv(info, box, cache)
+        if v.a <= 0:
+            raise IvUnknown("log argument may be non-positive")
+        r = iv.log(v)
+    elif k == 'def':
+        r = evaliv(info, box, cache)
+    elif k == 'inv':
+        v = evaliv(RF(info), box, cache)
+        if v.a <= 0 <= v.b:
+            raise IvUnknown("pole inside the box")
+        r = 1 / v
+    elif k == 'ind':
+        v = evaliv(info.val, box, cache)
+        if info.op == '>':
+            t = True if v.a > 0 else (False if v.b <= 0 else None)
+        elif info.op == '>=':
+            t = True if v.a >= 0 else (False if v.b < 0 else None)
+        else:
+            t = False if (v.a > 0 or v.b < 0) else None
+        if t is None:
+            raise IvUnknown("indicator undetermined on the box")
+        r = iv.mpf(1 if t else 0)
+    else:
+        raise IvUnknown("atom kind %s has no interval extension" % k)
+    cache[a] = r
+    return r
+
+
+def _iv_root0(v, n):
+    from mpmath import iv
+    hi = iv.exp(iv.log(iv.mpf(v.b)) / n) if v.b > 0 else iv.mpf(0)
+    return iv.mpf([0, hi.b])
+
+
 def _no_fun_eval(a, env, cache, ctx):
     raise Undefined("opaque helper atom has no numeric evaluator")
 
